@@ -73,7 +73,11 @@ func runHistB(c histCase) (histRecord, *ser.Result, *built, error) {
 	if err != nil {
 		return histRecord{}, nil, nil, err
 	}
-	opt := &ser.Options{Seed: c.RSeed}
+	// a quarter of the renderings have no end-of-line marker before endstream
+	// where /Length is right (the marker is only recommended)
+	ch := ser.PickChoices(c.RSeed)
+	ch.EndstreamNoEOL = (c.RSeed/7)%4 == 0
+	opt := &ser.Options{Seed: c.RSeed, Choices: &ch}
 	if b.crypt != nil {
 		opt.Encrypt = b.crypt.encrypt
 	}
@@ -210,9 +214,9 @@ func simulate(h history) func(n, g int) int {
 
 func mcConstants(ctx *core.Ctx) string {
 	if ctx.Thorough() {
-		return "Objs={1,2,3}, MaxRevs=3, Styles={runs}, ZeroFree=FALSE, MaxPieces=5, OFFBYONE=FALSE, NULLZERO=FALSE, KEYGEN0=FALSE, DECRYPTMEMBERS=FALSE, TRAILERMERGE=FALSE; trailer mode: 3 revisions, every choice of optional trailer keys"
+		return "Objs={1,2,3}, MaxRevs=3, Styles={runs}, ZeroFree=FALSE, MaxPieces=5, OFFBYONE=FALSE, NULLZERO=FALSE, KEYGEN0=FALSE, DECRYPTMEMBERS=FALSE, TRAILERMERGE=FALSE, ZEROLENUNKNOWN=FALSE; trailer mode: 3 revisions, every choice of optional trailer keys"
 	}
-	return "Objs={1,2,3}, MaxRevs=2, Styles={one,each,runs}, ZeroFree=TRUE, MaxPieces=4, OFFBYONE=FALSE, NULLZERO=FALSE, KEYGEN0=FALSE, DECRYPTMEMBERS=FALSE, TRAILERMERGE=FALSE; trailer mode: 3 revisions, every choice of optional trailer keys"
+	return "Objs={1,2,3}, MaxRevs=2, Styles={one,each,runs}, ZeroFree=TRUE, MaxPieces=4, OFFBYONE=FALSE, NULLZERO=FALSE, KEYGEN0=FALSE, DECRYPTMEMBERS=FALSE, TRAILERMERGE=FALSE, ZEROLENUNKNOWN=FALSE; trailer mode: 3 revisions, every choice of optional trailer keys"
 }
 
 func tlcOpts() core.TLCOpts {
@@ -430,8 +434,11 @@ func processJobs(ctx *core.Ctx, jobs []job, st *histStats) error {
 		}
 		f, perr := parseStrict(res.Bytes, pw)
 		if perr == nil {
-			if ps := strict.WellFormed(f); len(ps) > 0 {
-				perr = fmt.Errorf("%s", ps[0])
+			for _, p := range strict.WellFormed(f) {
+				if p.Clause != "endstream-eol" { // only recommended by the standard
+					perr = fmt.Errorf("%s", p)
+					break
+				}
 			}
 		}
 		if perr == nil && b.crypt != nil {
@@ -647,7 +654,7 @@ func generate(ctx *core.Ctx) ([]genCase, error) {
 		wg.Add(1)
 		go func(sh int) {
 			defer wg.Done()
-			cfg := fmt.Sprintf("INIT Init\nNEXT Next\nCONSTANTS OFFBYONE = FALSE\n NULLZERO = FALSE\n KEYGEN0 = FALSE\n DECRYPTMEMBERS = FALSE\n TRAILERMERGE = FALSE\n Objs = {1, 2, 3}\n MaxRevs = 2\n MaxPieces = %d\n Shard = %d\n Shards = %d\n", pieces, sh, shards)
+			cfg := fmt.Sprintf("INIT Init\nNEXT Next\nCONSTANTS OFFBYONE = FALSE\n NULLZERO = FALSE\n KEYGEN0 = FALSE\n DECRYPTMEMBERS = FALSE\n TRAILERMERGE = FALSE\n ZEROLENUNKNOWN = FALSE\n Objs = {1, 2, 3}\n MaxRevs = 2\n MaxPieces = %d\n Shard = %d\n Shards = %d\n", pieces, sh, shards)
 			cs, _, err := core.GenCases[genCase](ctx, core.TLCOpts{Dir: specDir, Module: "Gen_XRefHistory", CfgText: cfg, Mode: "evaluate",
 				XssMB: 512, Timeout: ctx.Dur(5, 15), Quiet: sh > 0, Constants: "Objs=1..3, MaxRevs=2"})
 			mu.Lock()
@@ -678,6 +685,8 @@ type lenCase struct {
 	Mode  int    `json:"mode"` // ser.LengthMode
 	Delta int    `json:"delta"`
 	RSeed int64  `json:"rseed"`
+	// NoEOL: no end-of-line marker before endstream (right lengths only)
+	NoEOL bool `json:"noeol,omitempty"`
 }
 
 type lenRecord struct {
@@ -702,8 +711,14 @@ func runLen(c lenCase) (lenRecord, error) {
 		{Num: 2, Kind: ser.Define, Value: obj.Dict{"Type": obj.Name("Catalog"), "Pages": obj.Ref{Num: 3}}},
 		{Num: 3, Kind: ser.Define, Value: obj.Dict{"Type": obj.Name("Pages"), "Kids": obj.Array{}, "Count": obj.Int(0)}},
 		{Num: 4, Kind: ser.Define, Value: &obj.Stream{Dict: obj.Dict{}, Raw: []byte("second stream")}},
+		{Num: 5, Kind: ser.Define, Value: &obj.Stream{Dict: obj.Dict{}, Raw: []byte("third")}, Length: ser.LenIndirect},
 	}, Trailer: obj.Dict{"Root": obj.Ref{Num: 2}}}}}
-	res, err := ser.RenderResult(doc, &ser.Options{Seed: c.RSeed})
+	ch := ser.PickChoices(c.RSeed)
+	ch.EndstreamNoEOL = c.NoEOL
+	if c.NoEOL {
+		ch.Order = []int{0, 0, 2}[rng.Intn(3)] // mostly with another stream after this one
+	}
+	res, err := ser.RenderResult(doc, &ser.Options{Seed: c.RSeed, Choices: &ch})
 	if err != nil {
 		return rec, err
 	}
@@ -801,6 +816,12 @@ func lenKey(c lenCase, rec lenRecord) string {
 			rel = "/long"
 		}
 	}
+	if c.NoEOL {
+		rel += "/no-eol-before-endstream"
+		if len(c.Body) == 0 {
+			rel += "/empty"
+		}
+	}
 	return fmt.Sprintf("stream-length/%s%s/%s", ser.LengthMode(c.Mode), rel, cls)
 }
 
@@ -811,15 +832,26 @@ func runLengths(ctx *core.Ctx, bcases []genCase) error {
 	var cases []lenCase
 	add := func(body []byte) {
 		for _, m := range []ser.LengthMode{ser.LenDirect, ser.LenIndirect, ser.LenMissing, ser.LenUnresolvable, ser.LenNegative} {
-			cases = append(cases, lenCase{"len", body, int(m), 0, rng.Int63()})
+			cases = append(cases, lenCase{Kind: "len", Body: body, Mode: int(m), RSeed: rng.Int63()})
+		}
+		// a right length without the (only recommended) end-of-line marker
+		// before endstream; the empty body several times: /Length 0
+		rep := 1
+		if len(body) == 0 {
+			rep = 12
+		}
+		for i := 0; i < rep; i++ {
+			for _, m := range []ser.LengthMode{ser.LenDirect, ser.LenIndirect} {
+				cases = append(cases, lenCase{Kind: "len", Body: body, Mode: int(m), RSeed: rng.Int63(), NoEOL: true})
+			}
 		}
 		for d := -len(body); d <= 14; d++ {
 			if d != 0 {
-				cases = append(cases, lenCase{"len", body, int(ser.LenWrong), d, rng.Int63()})
+				cases = append(cases, lenCase{Kind: "len", Body: body, Mode: int(ser.LenWrong), Delta: d, RSeed: rng.Int63()})
 			}
 		}
-		cases = append(cases, lenCase{"len", body, int(ser.LenWrong), 40 + rng.Intn(60), rng.Int63()},
-			lenCase{"len", body, int(ser.LenWrong), 100000, rng.Int63()})
+		cases = append(cases, lenCase{Kind: "len", Body: body, Mode: int(ser.LenWrong), Delta: 40 + rng.Intn(60), RSeed: rng.Int63()},
+			lenCase{Kind: "len", Body: body, Mode: int(ser.LenWrong), Delta: 100000, RSeed: rng.Int63()})
 	}
 	nb := 0
 	for _, bc := range bcases {
